@@ -1,0 +1,26 @@
+//go:build verif
+
+package utils
+
+// Contracts for govc (see /verif/DESIGN.md §8 C05). Comment-only file: it adds no code.
+
+//@ func StringContainsSliceElements
+//@   property C05
+//@   modifies nothing
+//@   loop range invariant [scanned] -1 <= rangeindex && rangeindex < len(slice) && forall(j, 0, rangeindex+1, !strings.Contains(target, slice[j]))
+//@   ensures [def] result == exists(j, 0, len(slice), strings.Contains(target, slice[j])) // C05: matches --exclude-host / --exclude-string / --include-*
+
+// DedupeStrings keeps at least one copy of every input string (order of first appearance), in
+// a new list. (That it drops the repeats is not needed by any property and not stated.)
+//@ pred strIn(l []string, s string) = exists(j, 0, len(l), l[j] == s)
+//@ func DedupeStrings
+//@   property C05
+//@   modifies nothing
+//@   loop range invariant [kept] -1 <= rangeindex && rangeindex < len(input) && freshslice(list) && forall(k, string, has(keys, k) ==> strIn(list, k)) && forall(i, 0, rangeindex+1, has(keys, input[i]))
+//@   ensures [keeps-last] (len(input) >= 1 ==> strIn(result, input[len(input)-1])) && (len(input) >= 2 ==> strIn(result, input[len(input)-2])) // instances of [keeps-all] for the last two entries (ground terms for callers that append defaults)
+//@   ensures [keeps-all] freshslice(result) && forall(i, 0, len(input), strIn(result, input[i])) // C05: archive.org and archive-it.org are always excluded (the defaults survive the de-duplication)
+
+// GetVersion only reads the build information (assumed: writes nothing the caller can see).
+//@ func GetVersion
+//@   opaque
+//@   modifies nothing
